@@ -297,4 +297,59 @@ theorem G_create {st : St} (g : G st) (d : List Nat) : G (st.create d).1 := by
       · intro _ h; cases h
       · exact g.activeInst i
 
+/-! ### create with a failing `malloc` -/
+
+theorem enomem_ne_zero : ENOMEM ≠ 0 := by decide
+
+/-- what a create call whose allocation fails does: nothing (table at its limit), or the reference count
+    of the EMPTY entry it found is left incremented, or `handle_count` is left incremented -/
+theorem createFail_spec {st : St} (g : G st) :
+    (∃ rc, rc ≠ 0 ∧ st.createFail = (st, .created rc 0))
+    ∨ (∃ j, j < st.handleCount ∧ (st.tbl.get j).state = EMPTY ∧
+        st.createFail =
+          ({ st with tbl := st.tbl.set j { (st.tbl.get j) with refCount := (st.tbl.get j).refCount + 1 } },
+           .created ENOMEM 0))
+    ∨ (∃ m, st.handleCount + 1 ≤ m ∧ m ≤ MAXELEMS ∧
+        st.createFail =
+          ({ tbl := st.tbl, handleCount := st.handleCount + 1, iterator := st.iterator, maxElems := m,
+             nextObj := st.nextObj }, .created ENOMEM 0)) := by
+  cases hf : st.findEmpty 0 st.handleCount with
+  | some j =>
+    right; left
+    have hj := findEmpty_some hf
+    refine ⟨j, by omega, hj.2.2, ?_⟩
+    simp only [St.createFail, hf]
+  | none =>
+    by_cases hmax : st.handleCount + 1 > MAXELEMS
+    · left
+      refine ⟨EINVAL, einval_ne_zero, ?_⟩
+      simp [St.createFail, hf, St.arrayGrow, hmax, einval_ne_zero]
+    · right; right
+      simp only [St.createFail, hf, St.arrayGrow, hmax, if_false]
+      by_cases hle : st.handleCount + 1 ≤ st.maxElems
+      · refine ⟨st.maxElems, hle, g.maxLe, ?_⟩
+        simp only [hle, if_true]
+        have hidx : st.arrayIndex (st.handleCount : Int) = 0 := by
+          unfold St.arrayIndex
+          have h1 : ¬ ((st.handleCount : Int) < 0) := by omega
+          have h2 : ¬ ((st.handleCount : Int) ≥ (st.maxElems : Int)) := by omega
+          simp [h1, h2]
+        simp only [ne_eq, not_true_eq_false, if_false, hidx]
+      · refine ⟨st.handleCount + 1, Nat.le_refl _, by omega, ?_⟩
+        simp only [hle, if_false]
+        have hidx : St.arrayIndex { st with maxElems := st.handleCount + 1 } (st.handleCount : Int) = 0 := by
+          unfold St.arrayIndex
+          have h1 : ¬ ((st.handleCount : Int) < 0) := by omega
+          have h2 : ¬ ((st.handleCount : Int) + 1 ≤ (st.handleCount : Int)) := by omega
+          simp [h1, h2]
+        simp only [ne_eq, not_true_eq_false, if_false, hidx]
+
+theorem G_createFail {st : St} (g : G st) : G st.createFail.1 := by
+  rcases createFail_spec g with ⟨rc, _, he⟩ | ⟨j, _, _, he⟩ | ⟨m, hm1, hm2, he⟩
+  · rw [he]; exact g
+  · rw [he]
+    exact g.setEntry _ _ st.iterator (g.checkLt _) (g.instLt _) (g.activeInst _)
+  · rw [he]
+    exact ⟨hm1, hm2, g.checkLt, g.instLt, g.activeInst⟩
+
 end QbVerif.Hdb
